@@ -165,7 +165,9 @@ func c14Property(t *rapid.T) {
 	}
 	if len(want) >= 1 && collection {
 		if hx.NonTrivial(hx.Digest(hx.RefKey(n, false), hx.RefKey(n2, false))) {
-			hx.Sample(func() any { return map[string]any{"n": hx.RefKey(n, true), "n2": hx.RefKey(n2, true), "differing": want} })
+			hx.Sample(func() any {
+				return map[string]any{"n": hx.RefKey(n, true), "n2": hx.RefKey(n2, true), "differing": want}
+			})
 		}
 	}
 	desc := func() string { return fmt.Sprintf("\n n =%s\n n2=%s", hx.RefKey(n, true), hx.RefKey(n2, true)) }
